@@ -83,7 +83,12 @@ def sh(cmd, cwd=None, timeout=3600, input=None):
 
 
 def translate():
-    rc, out = sh([PY, os.path.join(ROOT, "harness", "translate.py")], cwd=ROOT)
+    env = dict(os.environ)
+    env["PYTHONPATH"] = os.path.join(ROOT, "harness") + ":" + os.environ.get("VERIF_REPO", "/repo")
+    env["PYTHONWARNINGS"] = "ignore"
+    p = subprocess.run([PY, os.path.join(ROOT, "harness", "translate.py")], cwd=ROOT, env=env,
+                       stdout=subprocess.PIPE, stderr=subprocess.STDOUT, text=True)
+    rc, out = p.returncode, p.stdout
     if rc != 0:
         return False, out
     return True, out
@@ -344,6 +349,21 @@ def load_known():
 
 
 # ------------------------------------------------------------------ main
+def load_corpus(prop):
+    """corpus/Cxx/*.json: hand-written edge cases and shrunk past failures; each file holds one case
+    description or a list of them (or a replay file with a "case" key); they run before the random cases"""
+    d = os.path.join(ROOT, "corpus", prop)
+    out = []
+    if os.path.isdir(d):
+        for fn in sorted(os.listdir(d)):
+            if fn.endswith(".json"):
+                j = json.load(open(os.path.join(d, fn)))
+                if isinstance(j, dict) and "case" in j and "property" in j:
+                    j = j["case"]
+                out += j if isinstance(j, list) else [j]
+    return out
+
+
 def write_replay(prop, payload):
     os.makedirs(REPLAYS, exist_ok=True)
     path = os.path.join(REPLAYS, "%s-%d-%d.json" % (prop, payload.get("seed", 0), int(time.time() * 1000) % 10**9))
@@ -412,7 +432,7 @@ def main(modname, argv):
 
     # ---- correspondence + oracle on the implementation
     rng = random.Random(seed * 1000003 + 17)
-    descs = list(mod.cases(rng, tier))
+    descs = load_corpus(prop) + list(mod.cases(rng, tier))
     results = evaluate_all(mod, descs, jobs)
     herr = [(d, r["harness_error"]) for d, r in zip(descs, results) if "harness_error" in r]
     if herr:
